@@ -1,10 +1,11 @@
 import QuantemModel.Core.Proto
 import QuantemModel.Model.Checkpoint
+import QuantemModel.Model.CheckpointSession
 open Lean QuantemModel QuantemModel.Proto QuantemModel.Checkpoint
 
 /-!
 Driver for C05: runs Model/Checkpoint.lean on the event trace recorded from real runs.
-ops: reconnect | book | symiter | project
+ops: reconnect | book | symiter | project | session
 -/
 namespace DrvC05
 
@@ -86,6 +87,76 @@ def masksOfJson (j : Json) : Except String (List (List (String × List Bool))) :
       let bs ← (← pr[1]!.getArr?).toList.mapM (·.getBool?)
       pure ((← pr[0]!.getStr?), bs)
 
+/-! call-level session machine (Model/CheckpointSession.lean) on an abstract description of each real call -/
+
+def optKindOfStr : String → Except String OptKind
+  | "ok" => pure .ok
+  | "none" => pure .none_
+  | "unknown" => pure .unknown
+  | "badkw" => pure .badkw
+  | s => throw s!"opt kind {s}"
+
+def schedArgOfStr : String → Except String SchedArg
+  | "empty" => pure .empty
+  | "notype" => pure .notype
+  | "unknown" => pure .unknown
+  | "none" => pure (.cfg true 0)
+  | "ok" => pure (.cfg false 1)
+  | s => throw s!"sched kind {s}"
+
+def strPairs (j : Json) : Except String (List (String × String)) := do
+  (← j.getArr?).toList.mapM fun it => do
+    let pr ← it.getArr?
+    if pr.size != 2 then throw "pair" else pure ((← pr[0]!.getStr?), (← pr[1]!.getStr?))
+
+def callOfJson (j : Json) : Except String Call := do
+  let batchOk ← (← field j "batchOk").getBool?
+  let reset ← (← field j "reset").getBool?
+  let lossOk ← (← field j "lossOk").getBool?
+  let n ← natField j "n"
+  let cons ← (← arrField j "cons").toList.mapM fun e => do
+    let pr ← e.getArr?
+    if pr.size != 2 then throw "cons entry" else
+    let items ← (← pr[1]!.getArr?).toList.mapM fun it => do
+      let q ← it.getArr?
+      if q.size != 2 then throw "cons item" else pure ((← q[0]!.getStr?), 1, (← q[1]!.getBool?))
+    pure ({ category := (← pr[0]!.getStr?), items := items } : ConsEntry)
+  let optJ ← field j "opt"
+  let opt ← if optJ.isNull then pure none else do
+    let l ← strPairs optJ
+    pure (some (← l.mapM fun (k, s) => do pure (k, ({ kind := (← optKindOfStr s), hyper := 0, lr := 1 } : OptCfg))))
+  let schedJ ← field j "sched"
+  let sched ← if schedJ.isNull then pure none else do
+    let l ← strPairs schedJ
+    pure (some (← l.mapM fun (k, s) => do pure (k, (← schedArgOfStr s))))
+  pure { batchOk := batchOk, reset := reset, cons := cons, opt := opt, sched := sched, lossOk := lossOk, n := n }
+
+def allStep : Step Unit Unit Nat Unit where
+  loss := fun _ => 0
+  grad := fun _ _ _ => some ()
+  upd := fun _ _ m x _ => (some (m.getD 0 + 1), x)
+  sched := fun s _ lr => (s, lr)
+
+def sessModel (keep : List Bool) : ModelSt Unit Nat Unit :=
+  let n := keep.length
+  { params := (List.range n).map (fun i => (i, ())), opt := none, sched := none, cons := [], init := List.replicate n (), keepId := keep }
+
+def keepOfJson (j : Json) : Except String (List (String × List Bool)) := do
+  (← j.getArr?).toList.mapM fun it => do
+    let pr ← it.getArr?
+    if pr.size != 2 then throw "pair" else
+    pure ((← pr[0]!.getStr?), (← (← pr[1]!.getArr?).toList.mapM (·.getBool?)))
+
+def sessViewJson (raised : Bool) (r : SRecon) : Json :=
+  let one := fun (k : String) (m : ModelSt Unit Nat Unit) =>
+    Json.mkObj [("key", Json.str k), ("opt", Json.bool m.opt.isSome), ("sched", Json.bool m.sched.isSome),
+      ("bound", match m.opt with | some o => Json.bool (o.params == m.params.map (·.1)) | none => Json.null),
+      ("cfg", Json.bool m.optCfg.isSome), ("scfg", Json.bool m.schedCfg.isSome), ("ids", natsToJson (m.params.map (·.1)))]
+  Json.mkObj [("raised", Json.bool raised), ("models", Json.arr #[one "object" r.object, one "probe" r.probe, one "dataset" r.dataset]),
+    ("num_iters", Json.num (JsonNumber.fromNat r.book.iterLosses.length)),
+    ("lrs", Json.arr ((sortKV r.book.iterLrs).map (fun (k, l) => Json.arr #[Json.str k, Json.num (JsonNumber.fromNat l.length)])).toArray),
+    ("inv", Json.bool r.book.inv)]
+
 def step (st : Unit) (j : Json) : Unit × Json :=
   match (do
     let op ← strField j "op"
@@ -130,6 +201,18 @@ def step (st : Unit) (j : Json) : Unit × Json :=
         pure (st, okJson (Json.mkObj [("mid", shapeJson mid), ("reloaded", shapeJson reloaded), ("end", shapeJson endR),
           ("resume_eq", Json.bool (shapeOf endR == shapeOf endU && endR.book == endU.book)),
           ("positional_reloaded", shapeJson (toDevice reconnectPositional mid))]))
+    | "session" =>
+        let keeps ← keepOfJson (← field j "keep")
+        let calls ← (← arrField j "calls").toList.mapM callOfJson
+        let size := fun k => (lookup k keeps).getD []
+        let mut r : SRecon := { object := sessModel (size "object"), probe := sessModel (size "probe"), dataset := sessModel (size "dataset"),
+                                book := Book.empty, verbose := 0, batchSize := 1, preprocessed := true, device := "cpu" }
+        let mut out : Array Json := #[]
+        for c in calls do
+          let x := exec allStep (fun _ lr => ((), lr)) [] c r
+          r := x.1
+          out := out.push (sessViewJson x.2 r)
+        pure (st, okJson (Json.mkObj [("steps", Json.arr out)]))
     | "project" =>
         let names ← (← arrField j "names").toList.mapM (·.getStr?)
         let skip ← (← arrField j "skip").toList.mapM (·.getStr?)
